@@ -17,11 +17,16 @@ pub const NFD: usize = 56;
 #[cfg(feature = "bigfd")]
 pub const NFD: usize = 230;
 pub const NOBJ: usize = 30;
-#[cfg(not(feature = "bigfd"))]
+#[cfg(all(not(feature = "bigfd"), not(feature = "bigq")))]
 pub const NPK: usize = 14;
 #[cfg(feature = "bigfd")]
 pub const NPK: usize = 4;
+#[cfg(feature = "bigq")]
+pub const NPK: usize = 70;
+#[cfg(not(feature = "bigq"))]
 pub const QCAP: usize = 4;
+#[cfg(feature = "bigq")]
+pub const QCAP: usize = 70;
 #[cfg(not(feature = "bigfd"))]
 pub const PFD: usize = 6;
 #[cfg(feature = "bigfd")]
@@ -1147,6 +1152,9 @@ pub fn exit_proc(owner: u8) {
 }
 pub fn set_poll_times_out(b: bool) {
     unsafe { K.poll_verdict = if b { 1 } else { 0 } }
+}
+pub fn errno() -> c_int {
+    unsafe { ERRNO }
 }
 pub fn set_eintr_at(i: i32) {
     unsafe {
